@@ -252,7 +252,7 @@ def gen_history(rng, n_edits, hidx):
                 # the name decides where the type sorts among the existing ones
                 name = "%sVerifExtra%d_%d" % (rng.pick(["", "Aa", "Zz", "Zz"]), hidx, i)
                 inserted.append(name)
-                edits.append("insert_type:%s:%s:%d" % (name, rng.pick(["opaque", "struct", "enum", "opaque_impl", "opaque_impl", "opaque_impl"]), rng.pick([0, 0, 1000, 2000]) + rng.below(64)))
+                edits.append("insert_type:%s:%s:%d" % (name, rng.pick(["opaque", "struct", "enum", "trait", "opaque_impl", "opaque_impl", "opaque_impl"]), rng.pick([0, 0, 1000, 2000]) + rng.below(64)))
         else:
             if nonbridge and rng.chance(1, 2):
                 edits.append("remove_nonbridge")
